@@ -546,7 +546,7 @@ def leg_fault_injection(cases, flavour, tier, jobs=8):
         vi = 0
         for cls, n, en, r, r2, probe in out:
             injected = any(e.startswith("injected") for ev in r.events for e in ev)
-            if not injected:
+            if not injected or runtime_channel_hit(r):
                 continue
             injections += 1
             where = f"{en} injected into {cls.split(',')[0]} #{n} during `{case['victim'][:50]}`"
@@ -707,7 +707,7 @@ def leg_writer_faults(flavour, tier, jobs=8):
         allres = list(ex.map(run_case, writer_fault_cases()))
     for case, out in allres:
         for cls, n, en, r, r2, probe in out:
-            if not any(e.startswith("injected") for ev in r.events for e in ev):
+            if not any(e.startswith("injected") for ev in r.events for e in ev) or runtime_channel_hit(r):
                 continue
             injections += 1
             where = f"{en} injected into {cls.split(',')[0]} #{n} during the streamed write {case['name']} (declared size {case['size']})"
@@ -986,6 +986,22 @@ def leg_concurrent(r, rounds, flavours, procs=4, ops_per_proc=40):
 # ---------------------------------------------------------------------------------------------
 # flavour equivalence (C12): one program, four executions
 # ---------------------------------------------------------------------------------------------
+
+def runtime_channel_hit(r):
+    """strace counts `when=N` per thread: besides the filesystem call aimed at, the N-th call of that name of ANOTHER
+    thread is tampered with too - and that may be the async runtime's own wake-up write (eventfd / pipe / socket; the
+    `polling` crate ignores a failed eventfd write, so the wake-up is lost and the runtime sleeps for ever).  That is no
+    fault of a filesystem operation issued on behalf of a cache call: such a run says nothing and is not counted."""
+    hit = [e for ev in r.events for e in ev if e.startswith("nonfs-injected")]
+    if hit:
+        DISCARDED["runtime_channel"] += 1
+        sys.stderr.write(f"fault leg: run discarded, the injection also hit a descriptor that is no file: {hit[0]}; "
+                         f"answers were {[l.split(' ')[0] for l in r.impl_lines][:6]}\n")
+    return bool(hit)
+
+
+DISCARDED = {"runtime_channel": 0}
+
 
 def leg_cold_start_race(flavours, rounds, procs=8):
     """Several processes make their FIRST writes into one cold cache at the same instant (`wait_until`): every
